@@ -90,7 +90,10 @@ MetricDom ==
    time  |-> <<"t2", "t3", "tzero", "tfar">>,
    val   |-> <<"v1", "v2", "v0", "vmax", "vmin", "vnan", "vinf", "vninf", "vnegzero">>,
    cnt   |-> <<"k5", "k0", "kmax">>,
-   lay   |-> <<"L1", "L2", "L3", "L4">>,
+   lay   |-> <<"L1", "L2", "L3", "L4"
+               \* bucket COUNT LISTS with zeros in every position (OtlpModel!ZeroShape): a count list is carried
+               \* position by position -- its length, every zero in it and the offset of the range are the layout
+               , "L5", "L6", "L7", "L8">>,
    mm    |-> <<"mm1", "mm0", "mmmin", "mmx">>,
    ex    |-> << <<XA>>, <<>>, <<XA, XB>>, <<XC>> >>,
    q     |-> <<"q1", "q0", "qx">>]
